@@ -27,8 +27,8 @@ func init() {
 			"parameter sets appear as adjacent SPS,PPS pairs followed (possibly after AUD/filler) by an emitted unit; lone/reversed/trailing parameter sets are not judged",
 		},
 		Strata: []fw.Stratum{
-			{Name: "payloader-to-depacketizer", N: fw.Const(60000, 6000000), Run: c10Pay},
-			{Name: "independent-encoder-to-depacketizer", N: fw.Const(40000, 4000000), Run: c10Dec},
+			{Name: "payloader-to-depacketizer", N: fw.Const(300000, 8000000), Run: c10Pay},
+			{Name: "independent-encoder-to-depacketizer", N: fw.Const(200000, 6000000), Run: c10Dec},
 		},
 	})
 }
